@@ -215,7 +215,7 @@ theorem app_data_readable (A : Aead) (C : Crypto) (L : Loc) (e : Ep) (k : Keys) 
 is ClientKeyExchange, ChangeCipherSpec, Finished — exactly the records it just sent — so a server that
 lost the ClientKeyExchange gets it again with the next tick. -/
 theorem converge_partial_client_flight (C : Crypto) (L : Loc) (e : Ep) (k : Keys)
-    (hk : e.ctx.keys.isSome = false) (hv : (e.isClient && !e.ctx.skeVerified) = false)
+    (hc : e.isClient = true) (hk : e.ctx.keys.isSome = false) (hv : e.ctx.skeVerified = true)
     (hd : deriveKeys C L (emitMsg e.ctx dtlsHtClientKeyExchange L.ckeBody false).2 = some k) :
     ∃ cke ccs fin,
       (handleServerHelloDone C L e).out = sends [cke, ccs, fin] ∧
@@ -223,7 +223,7 @@ theorem converge_partial_client_flight (C : Crypto) (L : Loc) (e : Ep) (k : Keys
       cke.ctype = dtlsCtHandshake ∧ cke.sealed = false ∧ cke.plain = rawMsg dtlsHtClientKeyExchange e.ctx.msgSeq L.ckeBody ∧
       ccs.ctype = dtlsCtChangeCipherSpec ∧ fin.ctype = dtlsCtHandshake ∧ fin.sealed = true ∧ fin.epoch = e.ctx.epoch + 1 := by
   unfold handleServerHelloDone
-  simp only [hk, Bool.false_eq_true, if_false, hv, hd]
+  simp only [hc, Bool.not_true, hk, Bool.false_eq_true, if_false, hv, Bool.and_false, hd]
   refine ⟨_, _, _, rfl, rfl, rfl, ?_, rfl, rfl, rfl, ?_, rfl⟩ <;> simp [clientFinalFlight, emitMsg, hsRecord, ccsRecord]
 
 /-- converge_partial (4a'): a fragment with offset 0 *restarts* reassembly whatever the buffer held —
